@@ -38,6 +38,7 @@ CONSTANTS
     AbsentKey,     \* a key no entry carries
     MaxKeyN,       \* directory sizes for the key-scan model
     SizeBits,      \* width of `required_size` in add_directory_index_section: 16 as-is, 32 = proposed fix
+    MaxEntries,    \* 65535: Header.n_local_entries is a guint16
     SizeDomain,    \* the arithmetic model evaluates every n in this set (1..65535: Header.n_local_entries is guint16)
     Boundary       \* claimed smallest n for which the index cannot be built with SizeBits (0 = no claim)
 
@@ -130,7 +131,7 @@ NoSize == [n |-> 0, mph |-> 0, dirmap |-> 0, packed |-> 0, required |-> 0, fits 
 (* IMPLEMENTATION-SHAPED LAYER: state                                      *)
 (***************************************************************************)
 VARIABLES
-    mode,     \* "hash" | "keys" | "size": which part of the code this behaviour exercises
+    mode,     \* "hash" | "keys" | "size" | "bisect": which part of the code this behaviour exercises
     n,        \* number of local directory entries
     h,        \* the perfect hash: Universe(n) -> 0..HMax
     gk, dk,   \* GType-name / error-domain key of entry i (NoKey: the entry has none / is of another blob type)
@@ -138,9 +139,10 @@ VARIABLES
     packed,   \* entries already written by the pack loop
     phase,    \* "pack" | "probe" | "size" | "done"
     obs,      \* the observation produced by the last step (property-layer record)
-    sz        \* the arithmetic record produced by BuildIndex
+    sz,       \* the arithmetic record produced by BuildIndex
+    lo, hi    \* mode "bisect": lo builds (or is 0), hi does not (or is MaxEntries + 1)
 
-vars == <<mode, n, h, gk, dk, table, packed, phase, obs, sz>>
+vars == <<mode, n, h, gk, dk, table, packed, phase, obs, sz, lo, hi>>
 
 NoKey    == "-"
 Dir(k)   == {Pool[i] : i \in 1..k}                 \* the names of a k-entry directory
@@ -159,17 +161,25 @@ InitHash ==
     /\ mode = "hash" /\ n \in 1..MaxN /\ h \in HashFns(n)
     /\ gk = [i \in 1..n |-> NoKey] /\ dk = [i \in 1..n |-> NoKey]
     /\ table = [s \in 0..(n - 1) |-> 0]               \* memset (mem, 0, len)
-    /\ packed = {} /\ phase = "pack" /\ obs = NoObs /\ sz = NoSize
+    /\ packed = {} /\ phase = "pack" /\ obs = NoObs /\ sz = NoSize /\ lo = 0 /\ hi = 0
 
 InitKeys ==
     /\ mode = "keys" /\ n \in 1..MaxKeyN
     /\ h = [x \in Universe(n) |-> IF \E i \in 1..n : Pool[i] = x THEN (CHOOSE i \in 1..n : Pool[i] = x) - 1 ELSE HMax]
     /\ gk \in KeyFns(n) /\ dk \in KeyFns(n)
     /\ table = [s \in 0..(n - 1) |-> s]
-    /\ packed = 1..n /\ phase = "probe" /\ obs = NoObs /\ sz = NoSize
+    /\ packed = 1..n /\ phase = "probe" /\ obs = NoObs /\ sz = NoSize /\ lo = 0 /\ hi = 0
 
 InitSize ==
     /\ mode = "size" /\ n \in SizeDomain
+    /\ h = <<>> /\ gk = <<>> /\ dk = <<>> /\ table = <<>> /\ packed = {}
+    /\ phase = "size" /\ obs = NoObs /\ sz = NoSize /\ lo = 0 /\ hi = 0
+
+\* the same arithmetic explored by bisection instead of enumeration: PackedSize is monotone in n
+\* (Inv_Monotone, checked over all n in the thorough tier), so the ns that cannot be built form an
+\* upper segment of 1..MaxEntries and 16 evaluations locate its lower end
+InitBisect ==
+    /\ mode = "bisect" /\ n = 0 /\ lo = 0 /\ hi = MaxEntries + 1
     /\ h = <<>> /\ gk = <<>> /\ dk = <<>> /\ table = <<>> /\ packed = {}
     /\ phase = "size" /\ obs = NoObs /\ sz = NoSize
 
@@ -183,7 +193,7 @@ PackOne(i) ==
          /\ table' = [table EXCEPT ![hashv] = i - 1]   \* add_string (b, str, i) with i counted from 0
     /\ packed' = packed \cup {i}
     /\ phase' = IF packed' = 1..n THEN "probe" ELSE "pack"
-    /\ UNCHANGED <<mode, n, h, gk, dk, obs, sz>>
+    /\ UNCHANGED <<mode, n, h, gk, dk, obs, sz, lo, hi>>
 
 (***************************************************************************)
 (* gthash.c:_gi_typelib_hash_search + gitypelib.c:..._by_name              *)
@@ -225,7 +235,7 @@ ProbeName(p) ==
                fIdx |-> Lookup(p), fLin |-> LinearLookup(p),
                fRepo |-> Lookup(p),                    \* g_irepository_find_by_name delegates to by_name
                repoAsked |-> TRUE, hasIndex |-> TRUE, built |-> TRUE]
-    /\ UNCHANGED <<mode, n, h, gk, dk, table, packed, phase, sz>>
+    /\ UNCHANGED <<mode, n, h, gk, dk, table, packed, phase, sz, lo, hi>>
 
 ProbeGType(k, prefixMatches) ==
     /\ phase = "probe" /\ mode = "keys" /\ k \in Keys \cup {AbsentKey}
@@ -233,7 +243,7 @@ ProbeGType(k, prefixMatches) ==
                expected |-> ExpectedSeq(Members(gk, k)),
                fIdx |-> KeyLookup(gk, k), fLin |-> KeyLookup(gk, k), fRepo |-> RepoFindByGType(k, prefixMatches),
                repoAsked |-> TRUE, hasIndex |-> TRUE, built |-> TRUE]
-    /\ UNCHANGED <<mode, n, h, gk, dk, table, packed, phase, sz>>
+    /\ UNCHANGED <<mode, n, h, gk, dk, table, packed, phase, sz, lo, hi>>
 
 ProbeDomain(k) ==
     /\ phase = "probe" /\ mode = "keys" /\ k \in Keys \cup {AbsentKey}
@@ -241,27 +251,39 @@ ProbeDomain(k) ==
                expected |-> ExpectedSeq(Members(dk, k)),
                fIdx |-> KeyLookup(dk, k), fLin |-> KeyLookup(dk, k), fRepo |-> KeyLookup(dk, k),
                repoAsked |-> TRUE, hasIndex |-> TRUE, built |-> TRUE]
-    /\ UNCHANGED <<mode, n, h, gk, dk, table, packed, phase, sz>>
+    /\ UNCHANGED <<mode, n, h, gk, dk, table, packed, phase, sz, lo, hi>>
 
 (***************************************************************************)
 (* girmodule.c:add_directory_index_section                                 *)
 (***************************************************************************)
+BuildObs(m) == [NoObs EXCEPT !.id = "model", !.kind = "build", !.n = m, !.built = Fits(m, SizeBits),
+                             !.hasIndex = Fits(m, SizeBits)]
+
 BuildIndex ==
-    /\ phase = "size"
+    /\ phase = "size" /\ mode = "size"
     /\ sz' = SizeRecord(n, SizeBits)
-    /\ obs' = [NoObs EXCEPT !.id = "model", !.kind = "build", !.n = n, !.built = Fits(n, SizeBits),
-                            !.hasIndex = Fits(n, SizeBits)]
+    /\ obs' = BuildObs(n)
     /\ phase' = "done"
-    /\ UNCHANGED <<mode, n, h, gk, dk, table, packed>>
+    /\ UNCHANGED <<mode, n, h, gk, dk, table, packed, lo, hi>>
+
+\* one more namespace size handed to add_directory_index_section: the midpoint of the open interval
+BisectStep ==
+    /\ phase = "size" /\ mode = "bisect" /\ hi > lo + 1
+    /\ LET mid == (lo + hi) \div 2 IN
+         /\ n' = mid /\ sz' = SizeRecord(mid, SizeBits) /\ obs' = BuildObs(mid)
+         /\ IF Fits(mid, SizeBits) THEN lo' = mid /\ hi' = hi ELSE lo' = lo /\ hi' = mid
+    /\ UNCHANGED <<mode, h, gk, dk, table, packed, phase>>
 
 Next == \/ \E i \in 1..MaxN : PackOne(i)
         \/ \E p \in Universe(MaxN) : ProbeName(p)
         \/ \E k \in Keys \cup {AbsentKey}, b \in BOOLEAN : ProbeGType(k, b)
         \/ \E k \in Keys \cup {AbsentKey} : ProbeDomain(k)
         \/ BuildIndex
+        \/ BisectStep
 
 SpecLookup == (InitHash \/ InitKeys) /\ [][Next]_vars
 SpecSize   == InitSize /\ [][Next]_vars
+SpecBisect == InitBisect /\ [][Next]_vars
 
 (***************************************************************************)
 (* implementation layer => property layer                                  *)
@@ -299,7 +321,13 @@ Inv_EntryIndexFits == phase = "done" => EntryIndexFits(n)
 \* exact failure set of the arithmetic with SizeBits: n fails iff n >= Boundary
 Inv_BoundaryExact  == (phase = "done" /\ Boundary # 0) => (sz.fits <=> n < Boundary)
 
-TypeOK == /\ mode \in {"hash", "keys", "size"}
+\* bisection ended inside 1..MaxEntries: hi is the smallest entry count whose index cannot be built.
+\* Checked as an "invariant" whose counterexample EXHIBITS that n (as-is: expected to be violated).
+Inv_NoBoundary == ~(mode = "bisect" /\ hi = lo + 1 /\ hi <= MaxEntries)
+\* what makes bisection (and "fails iff n >= Boundary") sound
+Inv_Monotone == phase = "done" => (n > 1 => PackedSize(n - 1) <= PackedSize(n))
+
+TypeOK == /\ mode \in {"hash", "keys", "size", "bisect"}
           /\ phase \in {"pack", "probe", "size", "done"}
           /\ obs.kind \in {"none", "build", "name", "gtype", "domain"}
 =============================================================================
